@@ -25,6 +25,12 @@ class HelpResolver(DefaultResolver):
         if args.tokens and args.tokens[0] == self._help_command_name:
             del args.tokens[0]
 
+            try:
+                return super(HelpResolver, self).resolve(args, application)
+            finally:
+                # Give the caller its raw arguments back as they were
+                args.tokens.insert(0, self._help_command_name)
+
         return super(HelpResolver, self).resolve(args, application)
 
     def create_resolved_command(
